@@ -417,9 +417,9 @@ def target_compat(ctx: Ctx) -> None:
             for k in ("target_store", "target_stores"):
                 v = kwarg(c, k)
                 if v is not None and mentions_name(v, "target"):
-                    sinks.append((c, f"{unparse(c.func)}({k}=...)"))
+                    sinks.append((c, f"{unparse(c.func)}({k}=...)", v))
         if isinstance(c, ast.Assign) and isinstance(c.targets[0], ast.Attribute) and c.targets[0].attr == "_zarray" and mentions_name(c.value, "target"):
-            sinks.append((c, "in-place retarget of the source array"))
+            sinks.append((c, "in-place retarget of the source array", c))
     ctx.need(len(sinks) >= 2, "store sinks not found in _store_array")
 
     def guard(kind: str, sink_node: int) -> bool:
@@ -462,10 +462,12 @@ def target_compat(ctx: Ctx) -> None:
                                 return True
         return False
 
-    for c, what in sinks:
+    # (finding keys digest the sink *argument* — `target_store=target` — not the whole call, so
+    # an unrelated edit of the call's other arguments does not re-report a known finding)
+    for c, what, kn in sinks:
         sn = cfg.node_of(c)
         ok = guard("shards", sn)
-        ctx.ob(f, c, ok, f"{what}: a target with shards ≠ source chunks is rechunked/refused first", sel=f"compat:shards:{what}")
+        ctx.ob(f, c, ok, f"{what}: a target with shards ≠ source chunks is rechunked/refused first", sel=f"compat:shards:{what}", key_node=kn)
         ok = guard("chunks", sn)
         ctx.ob(
             f,
@@ -474,6 +476,7 @@ def target_compat(ctx: Ctx) -> None:
             f"{what}: a caller-supplied target whose chunks differ from the source's chunking must be refused or the source rechunked first"
             + ("" if ok else " — no such guard: several tasks write parts of one stored chunk (read-modify-write, not one whole-chunk writer)"),
             sel=f"compat:chunks:{what}",
+            key_node=kn,
         )
 
 
@@ -747,6 +750,31 @@ def pickle_pair(ctx: Ctx) -> None:
         pos = c.args[1:]
         ok_pos = len(pos) == 2
         ctx.ob(inner, c, ok_pos, "the serialised function and the serialised input are passed", sel="pickle:positional")
+        if ok_pos and inner.params:
+            # the second positional is *this task's* input: the comprehension/loop variable
+            # that iterates the batch parameter — not the batch itself
+            batch = inner.params[0]
+
+            def elem_vars(e):
+                out = set()
+                for x in ast.walk(e):
+                    if isinstance(x, ast.Name) and id(x) in fl.comp_bind:
+                        it, _ = fl.comp_bind[id(x)]
+                        if any(isinstance(y, ast.Name) and y.id == batch for y in ast.walk(it)):
+                            out.add(x.id)
+                    elif isinstance(x, ast.Name):
+                        for s_ in fl.rdefs(x.id, at):
+                            if s_.kind == "for" and s_.value is not None and any(isinstance(y, ast.Name) and y.id == batch for y in ast.walk(s_.value)):
+                                out.add(x.id)
+                return out
+
+            ev = elem_vars(pos[1])
+            direct = any(isinstance(x, ast.Name) and x.id == batch for x in ast.walk(pos[1]))
+            ok_in = bool(ev) and not direct
+            ctx.ob(inner, c, ok_in, f"the input shipped with a task is one element of `{batch}`" + ("" if ok_in else f" — `{unparse(pos[1], 40)}` is not the per-task element (the whole batch, or something else, is sent to every task)"), sel="pickle:input-element")
+            fn_t = fl.taint(pos[0], at)
+            ok_f = any(x == f"free:{outer.params[1]}" or x.endswith(f":{outer.params[1]}") for x in fn_t) if len(outer.params) > 1 else False
+            ctx.ob(inner, c, ok_f, f"the function shipped with a task is the factory's `{outer.params[1] if len(outer.params) > 1 else '?'}` argument (found taint {sorted(fn_t)[:3]})", sel="pickle:function")
         for k in [k for k in c.keywords if k.arg is None]:
             t = fl.taint(k.value, at)
             own = (inner.kwarg or "kwargs") in t
